@@ -72,6 +72,9 @@ var LineDeviations = []Deviation{
 	{"tag-DATE", func(l *Line) { l.Tag = "DATE" }},
 	{"tag-custom", func(l *Line) { l.Tag = "_X" }},
 	{"tag-digits", func(l *Line) { l.Tag = "1" }},
+	// family-role lines (they refer to the most recently seen FAM record, wherever they stand)
+	{"tag-HUSB", func(l *Line) { l.Tag = "HUSB"; l.Value = "@I1@" }},
+	{"tag-CHIL", func(l *Line) { l.Tag = "CHIL"; l.Value = "@I1@" }},
 	{"tag-lowercase", func(l *Line) { l.Tag = "note" }},
 	{"tag-mixed-case", func(l *Line) { l.Tag = "Name" }},
 	{"tag-lowercase-indi", func(l *Line) { l.Tag = "indi"; l.Xref = "@I1@ " }},
